@@ -726,6 +726,13 @@ func modeC08(thorough bool, only string) {
 			add(fmt.Sprintf("p-badreply%d", i), base, func(in *inst) { in.ups["u1"].setSeq(pn, seq...) },
 				step{0, 1, pn}, step{ms(6300), 8, pn}, step{ms(6800), 4, pn}, step{ms(6900), 1, pn})
 		}
+		// the refresh exchange itself fails (undecodable reply / connection closed): the old entry stays usable
+		for i, rc := range []string{"r0t8d0fG", "r0t8d0fC"} {
+			pn := n("r0t8d0")
+			seq := []string{"r0t8d0", rc, rc}
+			add(fmt.Sprintf("p-failed%d", i), base, func(in *inst) { in.ups["u1"].setSeq(pn, seq...) },
+				step{0, 1, pn}, step{ms(6300), 8, pn}, step{ms(6800), 4, pn}, step{ms(6900), 1, pn})
+		}
 		// the refresh is made for the hitting client's group (ip marker): later hits of that group see it
 		mk := base
 		mk.ipMarker = []string{"127.0.1.0,127.0.1.255,office"}
